@@ -47,6 +47,29 @@ class RelLexMod:
                 if cnt == 0 and self.ch is None:
                     return [(OK, none(), s2)]
                 return [(OK, some(v), s2)]
+            if c == "core::iter::adapters::peekable::Peekable::<I>::next_if":
+                # look at the head, take it iff the predicate holds; inside a collecting loop the taken character is
+                # owed to the token text (it must be appended before the next one is taken and before returning)
+                if cnt == 0 and self.ch is None:
+                    return [(OK, none(), st)]
+                heads = [(("char", self.ch), "head")] if cnt == 0 else [(("abs", "uchar"), "later")]
+                out = [(OK, none(), st)] if cnt != 0 else []
+                for hv, which in heads:
+                    for ctl, r, s2 in I.apply(args[1], [hv], st, n):
+                        if ctl != OK:
+                            out.append((ctl, r, s2))
+                            continue
+                        for taken in ([True] if r == ("bool", True) else [False] if r == ("bool", False) else [True, False]):
+                            if not taken:
+                                out.append((OK, none(), s2))
+                                continue
+                            s3 = I.write(s2, place, ("abs", "pk", 1 if cnt == 0 else "many")) if place else s2
+                            if s3.mon.get("collecting") is not None:
+                                if s3.mon.get("owed"):
+                                    self.problems.append(("lexer-conserve", "a character is consumed inside a collecting loop without being appended to the token text", sp))
+                                s3 = s3.setmon("owed", True)
+                            out.append((OK, some(hv), s3.setmon("cur", which)))
+                return out
         if c == "alloc::string::String::new":
             return [(OK, ("abs", "run", "empty"), st.setmon("collecting", True).setmon("pushed", False))]
         if c == "alloc::string::String::push":
@@ -54,6 +77,7 @@ class RelLexMod:
             cur = I.deref_val(st, tgt)
             if cur[0] == "abs" and cur[1] == "run":
                 chv = I.deref_val(st, args[1])
+                owed = bool(st.mon.get("owed"))
                 if st.mon.get("pushed"):
                     self.problems.append(("lexer-conserve", "two characters appended for one consumed character", sp))
                 which = st.mon.get("cur")
@@ -62,6 +86,8 @@ class RelLexMod:
                     self.problems.append(("lexer-conserve", "appended character %s is not the character just peeked" % (chv,), sp))
                 newrun = "head.." if cur[2] == "empty" and which == "head" else ("run" if cur[2] != "empty" else "nohead")
                 s2 = I.write(st, tgt[1], ("abs", "run", newrun)) if tgt[0] == "ref" else st
+                if owed:
+                    return [(OK, UNIT, s2.setmon("owed", False))]     # the character taken by next_if is now part of the text
                 return [(OK, UNIT, s2.setmon("pushed", True))]
         if a0 is not None and a0[0] == "char":
             tbl = {"is_ascii_alphanumeric": lambda x: x.isascii() and x.isalnum(), "is_ascii_digit": lambda x: x.isascii() and x.isdigit(),
@@ -121,6 +147,8 @@ def lexer_table(F):
                 else:
                     tf = ("?", str(text)[:40])
                 pending = bool(s.mon.get("pushed"))
+                if s.mon.get("owed"):
+                    mod.problems.append(("lexer-conserve", "a character taken from the input is not part of the token text when the token is returned", f["sp"]))
                 cell["outs"].add(("tok", kn, cnt, tf, pending))
             else:
                 cell["outs"].add(("?", str(v)[:60]))
@@ -225,6 +253,25 @@ def validate_peek_past_ws(F, kinds):
             if a0 == ("abs", "cvec"):
                 if callee in ("alloc::vec::Vec::<T, A>::len", "core::slice::<impl [T]>::len"):
                     return [(OK, hirai.mkint(len(self.vec)), st)]
+                if callee in ("alloc::vec::Vec::<T, A>::is_empty", "core::slice::<impl [T]>::is_empty"):
+                    return [(OK, ("bool", not self.vec), st)]
+                if callee in ("core::slice::<impl [T]>::iter",) or callee.endswith("IntoIterator>::into_iter") or callee == "core::iter::traits::collect::IntoIterator::into_iter":
+                    return [(OK, ("abs", "siter", tuple(("tuple", (("enum", KIND + "::" + k, ()), ("abs", "toktext", k))) for k in self.vec), 0), st)]
+                if callee in ("core::slice::<impl [T]>::last", "core::slice::<impl [T]>::first"):
+                    if not self.vec:
+                        return [(OK, none(), st)]
+                    k = self.vec[-1 if callee.endswith("last") else 0]
+                    return [(OK, some(("tuple", (("enum", KIND + "::" + k, ()), ("abs", "toktext", k)))), st)]
+                if callee.endswith("Deref>::deref"):
+                    return [(OK, args[0], st)]
+            if a0 is not None and a0[0] == "abs" and a0[1] == "siter":
+                if callee.endswith("Iterator>::next") or callee == "core::iter::traits::iterator::Iterator::next":
+                    if a0[3] < len(a0[2]):
+                        s2 = I.write(st, args[0][1], ("abs", "siter", a0[2], a0[3] + 1)) if args[0][0] == "ref" else st
+                        return [(OK, some(a0[2][a0[3]]), s2)]
+                    return [(OK, none(), st)]
+                import siterlib
+                return siterlib.siter_intrinsic(I, callee, args, st, n)
             return None
 
         def index(self, I, n, base, idx, st):
